@@ -166,6 +166,9 @@ pub struct FilePlan {
     /// the open itself fails
     #[serde(default, skip_serializing_if = "Option::is_none")]
     pub open_fails: Option<ErrKind>,
+    /// the open never returns (a FIFO nobody writes to): the simulator ends the run
+    #[serde(default, skip_serializing_if = "std::ops::Not::not")]
+    pub open_blocks: bool,
 }
 
 pub const POST_FAULT_CALLS: u32 = 64;
@@ -191,6 +194,7 @@ struct SourceState {
     byte_budget: usize,
     opened: u32,
     open_fails: Option<ErrKind>,
+    open_blocks: bool,
 }
 
 struct SinkState {
@@ -642,6 +646,7 @@ fn source(
     endless: Option<Endless>,
     byte_budget: usize,
     open_fails: Option<ErrKind>,
+    open_blocks: bool,
 ) -> SourceState {
     SourceState {
         data,
@@ -662,6 +667,7 @@ fn source(
         byte_budget,
         opened: 0,
         open_fails,
+        open_blocks,
     }
 }
 
@@ -687,6 +693,7 @@ pub fn new_world(spec: WorldSpec) -> Shared {
         spec.endless,
         spec.byte_budget,
         None,
+        false,
     )];
     for f in spec.files {
         srcs.push(source(
@@ -698,6 +705,7 @@ pub fn new_world(spec: WorldSpec) -> Shared {
             f.plan.endless,
             f.byte_budget,
             f.plan.open_fails,
+            f.plan.open_blocks,
         ));
     }
     Arc::new(Mutex::new(World {
@@ -762,6 +770,10 @@ pub fn open_file(w: &Shared, i: usize) -> io::Result<SimSource> {
     }
     if g.any_rfault {
         g.opens_after_any_rfault += 1;
+    }
+    if g.srcs[which].open_blocks {
+        let _ = g.push(Chan::Open, 0, 0, Res::Fail(ErrKind::WouldBlock));
+        abort(w, g, "an input was opened whose open never returns (a FIFO nobody writes to)".into());
     }
     if let Some(k) = g.srcs[which].open_fails {
         g.srcs[which].fault_delivered = true;
